@@ -36,6 +36,9 @@ type Store struct {
 	FailStoreAt map[int]bool
 	NLoad       int
 	NStore      int
+	// Retain keeps the caller's slice instead of copying it (what the library's own in-memory store
+	// does): bytes that the caller overwrites after Store has returned then show up as corruption.
+	Retain bool
 	// Gate, if non-nil, is called before each Store/Load takes effect (schedulers park here).
 	Gate func(kind, name string) error
 }
@@ -69,7 +72,11 @@ func (s *Store) Store(ctx context.Context, name string, b []byte) error {
 	if fail {
 		return ErrInjected
 	}
-	s.M[name] = append([]byte{}, b...)
+	if s.Retain {
+		s.M[name] = b
+	} else {
+		s.M[name] = append([]byte{}, b...)
+	}
 	return nil
 }
 
